@@ -112,7 +112,7 @@ def constrainedMultiDecode (md : MeshData) (wt : Leaf.WrapT) (nc : Nat) (crease 
       if corner == inv && firstPass then
         firstPass := false
         corner ← md.t.swingRight start
-    if !fin then throw (.fuel "constrained multi-parallelogram: corners of a vertex")
+    if !fin then raise (.fuel "constrained multi-parallelogram: corners of a vertex")
     let numPar := preds.size
     if numPar > maxPar then maxPar := numPar
     let mut numUsed := 0
@@ -123,7 +123,7 @@ def constrainedMultiDecode (md : MeshData) (wt : Leaf.WrapT) (nc : Nat) (crease 
         let ps ← rd "is_crease_edge_pos" pos ctx
         pos ← wr "is_crease_edge_pos" pos ctx (ps + 1)
         let flags := crease.getD ctx #[]
-        if flags.size ≤ ps then throw .fail
+        if flags.size ≤ ps then raise .fail
         if !flags[ps]! then
           numUsed := numUsed + 1
           let pv := preds[i]!
@@ -280,14 +280,14 @@ def texPredict (md : MeshData) (ps : PosSource) (corner : Nat) (data : Array Int
 /-- `MeshPredictionSchemeTexCoordsPortableDecoder::ComputeOriginalValues` -/
 def texCoordsDecode (md : MeshData) (ps : PosSource) (wt : Leaf.WrapT) (nc : Nat) (orient : Array Bool)
     (data : Array Int) : R (Array Int × Nat) := do
-  if nc != 2 then throw .fail
+  if nc != 2 then raise .fail
   let mut data := data
   let mut orient := orient
   let mut used := 0
   for p in [0:md.d2c.size] do
     let corner := md.d2c[p]!
     match ← texPredict md ps corner data p orient with
-    | none => throw .fail
+    | none => raise .fail
     | some ((u, v), o, geo) =>
       orient := o
       if geo then used := used + 1
@@ -401,7 +401,7 @@ def multiParallelogramDecode (md : MeshData) (wt : Leaf.WrapT) (nc : Nat) (data 
       | none => pure ()
       corner ← md.t.swingRight corner
       if corner == start then corner := inv
-    if !fin then throw (.fuel "multi-parallelogram: corners of a vertex")
+    if !fin then raise (.fuel "multi-parallelogram: corners of a vertex")
     if numPar > maxPar then maxPar := numPar
     if numPar == 0 then
       let d := data
@@ -491,13 +491,13 @@ def texPredictDeprecated (md : MeshData) (ps : PosSourceF) (pre12 : Bool) (corne
 /-- `MeshPredictionSchemeTexCoordsDecoder::ComputeOriginalValues` -/
 def texCoordsDeprecatedDecode (md : MeshData) (ps : PosSourceF) (pre12 : Bool) (wt : Leaf.WrapT) (nc : Nat)
     (orient : Array Bool) (data : Array Int) : R (Array Int) := do
-  if nc != 2 then throw .fail
+  if nc != 2 then raise .fail
   let mut data := data
   let mut orient := orient
   for p in [0:md.d2c.size] do
     let corner := md.d2c[p]!
     match ← texPredictDeprecated md ps pre12 corner data p orient with
-    | none => throw .fail
+    | none => raise .fail
     | some ((u, v), o) =>
       orient := o
       data ← applyWrap wt 2 (2 * p) (fun c => pure (if c == 0 then u else v)) data
